@@ -815,3 +815,6 @@ def parent_checks(tier, seed):
                        "reference_units": sum(1 for c in e.classes for u in c._units
                                               if u in REFERENCE.get(c.__name__, {}))}
     return res
+
+
+RULE = RULE + " " + 'Later additions: unary plus; augmented assignment += / -=.'
